@@ -267,10 +267,12 @@ def c02(directed, q, pres, t, all_nodes, attrs, nbunch=None, ids=None):
         for name in ("in_inter", "in_inter_iter"):
             chk(name, q[name], inter_exp("in"))
     dexp = sorted([n, deg(n)] for n in nbs)
-    for name in ("deg", "deg_iter", "f_deg") + (("deg_once",) if nbunch is not None else ()):
+    for name in ("deg", "deg_iter", "f_deg") + (("deg_once", "deg_set") if nbunch is not None else ()):
         chk(name, q[name], dexp)
     if nbunch is not None:
         chk("inter_once", q["inter_once"], inter_exp("out"))
+        if "inter_tuple" in q:
+            chk("inter_tuple", q["inter_tuple"], inter_exp("out"))
     if directed:
         chk("indeg", q["indeg"], sorted([n, len(pred[n])] for n in nbs))
         chk("indeg_iter", q["indeg_iter"], sorted([n, len(pred[n])] for n in nbs))
